@@ -1214,8 +1214,8 @@ void reb_tools_solve_kepler_pal(double h, double k, double lambda, double* p, do
             double fd10 = fac*(-sin(pn));
             double fd11 = fac*(-cos(pn));
 
-            qn -= fd00*f0+fd10*f1;
-            pn -= fd01*f0+fd11*f1;
+            qn -= fd00*f0+fd01*f1; // Newton's method: (q,p) -= J^-1 (f0,f1)
+            pn -= fd10*f0+fd11*f1;
             f = sqrt(f0*f0+f1*f1);
         }while(n++<50 && f>1e-15);
         *p = pn;
